@@ -88,6 +88,11 @@ class Exec:
             if isinstance(m, ast.FunctionDef):
                 self.methods.setdefault(m.name, m)
         self.class_text = "\n".join(src(m) for m in self.methods.values()).replace(" ", "")
+        self.properties = {m.name: m for m in cls.body if isinstance(m, ast.FunctionDef) and
+                           any(src(d) in ("property", "functools.cached_property", "cached_property") for d in m.decorator_list)}
+        self.class_level = {t.id for st in cls.body if isinstance(st, (ast.Assign, ast.AnnAssign))
+                            for t in (st.targets if isinstance(st, ast.Assign) else [st.target]) if isinstance(t, ast.Name)}
+        self.foreign_bases = [src(b) for b in cls.bases if src(b) != "object"]
 
     def role_needed(self, L, I, g):
         """is `self.L[self.I]` evaluated by a method on a path the flags of this state allow?  (an index beyond the collection is
@@ -150,6 +155,16 @@ class Exec:
         if isinstance(e, ast.Attribute):
             if isinstance(e.value, ast.Name) and e.value.id == "self":
                 if e.attr not in g.a:
+                    # a read-only property of the grid answers from the attributes it reads: its getter is evaluated in this state
+                    getter = self.properties.get(e.attr)
+                    if getter is not None:
+                        body = [s_ for s_ in getter.body if not (isinstance(s_, ast.Expr) and isinstance(s_.value, ast.Constant))]
+                        if len(body) == 1 and isinstance(body[0], ast.Return) and body[0].value is not None:
+                            return self.ev(body[0].value, g, {})
+                        raise ModelError(f"property `{e.attr}` of the grid is not a single `return <expression>`")
+                    if e.attr in self.class_level or self.foreign_bases:
+                        # ASSUMPTION of `read but undefined`: every definition of the attribute was looked at
+                        raise ModelError(f"`self.{e.attr}` is defined at class level / in a base class of another module: not modelled")
                     raise AttrErr(e.attr)
                 v = g.a[e.attr]
                 if v is UNDEF:
@@ -271,6 +286,15 @@ class Exec:
             raise ModelError(f"condition `{src(e)}` is not a concrete flag")
         if isinstance(e, ast.Compare) and len(e.ops) == 1:
             a, b = self.ev(e.left, g, loc), self.ev(e.comparators[0], g, loc)
+
+            def unknown(v):
+                # ASSUMPTION of a decided comparison: both values are known to the model (a name of a layout, a flag, a number, None, a
+                # buffer); two values the model does not follow are not `equal` because they are written the same way
+                if isinstance(v, tuple) and v and v[0] in ("opaque", "lattr"):
+                    return True
+                return isinstance(v, (tuple, list)) and any(unknown(x) for x in v)
+            if unknown(a) or unknown(b):
+                return ("opaque", src(e))
             if isinstance(e.ops[0], ast.Eq):
                 return a == b
             if isinstance(e.ops[0], ast.NotEq):
@@ -329,7 +353,12 @@ class Exec:
         if isinstance(st, ast.Expr) and isinstance(st.value, ast.Call):
             c = st.value
             f = c.func
-            if isinstance(f, ast.Attribute) and f.attr == "transpose" and src(f.value) == "self._layout_manager":
+            is_mgr = isinstance(f, ast.Attribute) and f.attr == "transpose" and (
+                src(f.value) == "self._layout_manager" or
+                (isinstance(f.value, ast.Name) and f.value.id in loc and loc[f.value.id] == g.a.get("_layout_manager") and loc[f.value.id] is not None))
+            if is_mgr:
+                if any(isinstance(a, ast.Starred) for a in c.args) or any(k.arg is None for k in c.keywords):
+                    raise ModelError(f"call `{src(st)[:60]}`: star-arguments are not modelled")
                 args = [self.ev(a, g, loc) for a in c.args]
                 kw = {k.arg: self.ev(k.value, g, loc) for k in c.keywords}
                 names = ["source", "dest", "source_name", "dest_name", "buf"]
@@ -337,7 +366,7 @@ class Exec:
                 b.update(kw)
                 self.transpose(g, b, st)
                 return
-            if src(f) in ("np.copyto", "numpy.copyto") and len(c.args) == 2 and not c.keywords:
+            if src(f) in ("np.copyto", "numpy.copyto") and len(c.args) == 2 and all(k.arg == "casting" for k in c.keywords):
                 # np.copyto(dst, src) is the store dst[...] = src
                 tgt = self.ev(c.args[0], g, loc)
                 if isinstance(tgt, tuple) and tgt and tgt[0] in ("prefix", "buf", "view"):
@@ -370,9 +399,31 @@ class Exec:
                 finally:
                     self._depth -= 1
                 return
+            if isinstance(f, ast.Attribute) and f.attr in ("append", "extend") and isinstance(f.value, ast.Attribute) \
+                    and isinstance(f.value.value, ast.Name) and f.value.value.id == "self" and isinstance(g.a.get(f.value.attr), list) \
+                    and len(c.args) == 1 and not c.keywords:
+                # the collection of buffers grows (the optional save buffer added after the two working buffers)
+                v = self.ev(c.args[0], g, loc)
+                more = [v] if f.attr == "append" else v
+                if not isinstance(more, list):
+                    raise ModelError(f"`{src(st)[:60]}`: what is added to self.{f.value.attr} is not read")
+                g.a[f.value.attr] = list(g.a[f.value.attr]) + list(more)
+                return
             # any other call that is handed a buffer of the grid (or the view) may write it: not modelled
             touched = [x for x in list(c.args) + [k.value for k in c.keywords] + ([f.value] if isinstance(f, ast.Attribute) else [])
                        if any(isinstance(n, ast.Attribute) and src(n) in ("self._my_data", "self._f") for n in ast.walk(x))]
+
+            def is_buffer(v):
+                if isinstance(v, tuple) and v and v[0] in ("buf", "view", "prefix", "copyof"):
+                    return True
+                return isinstance(v, (list, tuple)) and any(is_buffer(x) for x in v)
+            for x in list(c.args) + [k.value for k in c.keywords] + ([f.value] if isinstance(f, ast.Attribute) else []):
+                # (also through a local name or another attribute that holds one of the buffers)
+                try:
+                    if is_buffer(self.ev(x.value if isinstance(x, ast.Starred) else x, g, loc)):
+                        touched.append(x)
+                except (AttrErr, ModelError):
+                    pass
             if touched:
                 raise ModelError(f"call `{src(st)[:70]}` receives a buffer of the grid: its effect on the buffer is not modelled")
             return
@@ -380,6 +431,8 @@ class Exec:
             return
         if isinstance(st, ast.Return):
             raise _Return()
+        if isinstance(st, ast.Raise):
+            raise Refused(src(st)[:60])          # the operation is refused with an exception
         raise ModelError(f"statement kind not modelled: `{src(st)[:60]}`")
 
     def assign(self, t, val, st, g, loc):
@@ -458,6 +511,8 @@ class Exec:
         s_, d_, sn, dn, buf = b.get("source"), b.get("dest"), b.get("source_name"), b.get("dest_name"), b.get("buf")
         if not (isinstance(s_, tuple) and s_[0] == "buf" and isinstance(d_, tuple) and d_[0] == "buf"):
             raise ModelError("transpose is not called with whole buffers of _my_data")
+        if not (isinstance(sn, str) and isinstance(dn, str)):
+            raise ModelError("the layout names handed to transpose are not known to the model")
         if s_[1] == d_[1] or (isinstance(buf, tuple) and buf[0] == "buf" and buf[1] in (s_[1], d_[1])):
             g.events.append(("aliasing", "transpose called with overlapping buffers"))
             for i in {s_[1], d_[1]}:
@@ -510,17 +565,24 @@ def check_state(g: GridModel, spec, has_save, ex=None):
     broken = [t for t, b in rl if b is None]
     if broken:
         return [("T1-index-permutation", f"`{broken[0]}` does not denote one of the grid's buffers")]
-    seen = {}
-    for t, b in rl:
-        if b in seen:
-            bad.append(("T1-index-permutation", f"`{seen[b]}` and `{t}` denote the same buffer: the data, scratch and save roles must be "
-                        "played by distinct buffers"))
-            return bad
-        seen[b] = t
+    # ASSUMPTION: two role expressions of the SAME kind (two entries `self.L[self.I]` of the collection, or - in a class without such a
+    # collection - two attributes) are different roles; an attribute that additionally names one of the collection's buffers is a
+    # convenience alias of that role, not a second role
+    indexed = [(t, b) for t, b in rl if "[" in t]
+    for group in ([indexed] if indexed else [[(t, b) for t, b in rl if "[" not in t]]):
+        seen = {}
+        for t, b in group:
+            if b in seen:
+                bad.append(("T1-index-permutation", f"`{seen[b]}` and `{t}` denote the same buffer: the data, scratch and save roles must be "
+                            "played by distinct buffers"))
+                return bad
+            seen[b] = t
     f = a.get("_f")
     lay = a.get("_layout")
     cur = ex.current_layout(g) if ex is not None else a.get("_current_layout_name")
     if not (isinstance(f, tuple) and f[0] == "view"):
+        # ASSUMPTION of every T-rule: the methods were interpreted completely by the model (anything it cannot read raises ModelError -> T0
+        # undecided); LayoutManager.transpose is its contract
         bad.append(("T3-view-coherence", f"_f is not a view of a data buffer: {f!r}"))
         return bad
     src_buf = ex.data_buffer(g) if ex is not None else None
@@ -547,7 +609,7 @@ def check_state(g: GridModel, spec, has_save, ex=None):
     return bad
 
 
-def explore(chk, ex: Exec, has_save: bool):
+def explore(chk, ex: Exec, has_save: bool, only=None):
     rel = U.GRID
     g0 = GridModel()
     init_args = {"eta_grid": ("opaque", "eta"), "bsplines": ("opaque", "b"), "layouts": ("opaque", "mgr"),
@@ -571,7 +633,8 @@ def explore(chk, ex: Exec, has_save: bool):
     transitions = 0
     bad0 = check_state(g0, spec0, has_save, ex)
     for rule, msg in bad0:
-        chk.ob(rule, init, "Grid.__init__", False, msg, file=rel, func="Grid.__init__")
+        if only is None or rule in only:
+            chk.ob(rule, init, "Grid.__init__", False, msg, file=rel, func="Grid.__init__")
     results = {}     # (rule, method) -> list of (ok, msg, history)
 
     def note(rule, method, ok, msg, hist):
@@ -635,6 +698,8 @@ def explore(chk, ex: Exec, has_save: bool):
             except Refused as r:
                 refused = True
             except AttrErr as e:
+                # ASSUMPTION (checked in Exec.ev): the attribute is neither a property, nor defined at class level, nor inherited from a class the
+                # model does not see
                 note("T6-attribute-defined", op, False, f"self.{e} is read but undefined in this state "
                      f"({'with' if has_save else 'without'} save memory)", h2)
                 continue
@@ -728,6 +793,10 @@ def alloc_agreement(chk, mod):
         return isinstance(e, ast.Call) and src(e.func) in _ALLOCS and e.args
 
     def sig(e):
+        if src(e.func).endswith("_like"):
+            # size and element type are those of the prototype array
+            return ("like " + src(e.args[0]), "like " + src(e.args[0]) if not any(k.arg == "dtype" for k in e.keywords) else
+                    [src(k.value) for k in e.keywords if k.arg == "dtype"][0])
         size = src(e.args[0])
         dt = [src(k.value) for k in e.keywords if k.arg == "dtype"]
         dt = dt[0] if dt else (src(e.args[1]) if len(e.args) > 1 else "<default float>")
@@ -740,6 +809,7 @@ def alloc_agreement(chk, mod):
         v = expand(a.value, env) if isinstance(a.value, ast.Name) else a.value
         if isinstance(v, ast.BinOp) and isinstance(v.op, ast.Mult) and any(isinstance(x, ast.List) and any(is_alloc(expand(y, env)) for y in x.elts)
                                                                            for x in (v.left, v.right)):
+            # ASSUMPTION: a list display containing an allocation call is multiplied by a number: every entry is the SAME array object
             chk.ob(rule, a, f"{src(a.targets[0])} = [...] * n", False,
                    f"`{src(a.value)[:70]}` repeats ONE array object: the rotating buffers alias each other, a layout change or a save overwrites "
                    "the data it reads", file=U.GRID, func="Grid.__init__")
@@ -759,6 +829,31 @@ def alloc_agreement(chk, mod):
         if not any(is_alloc(x) for x in xs):
             continue
         groups.append((a, [sig(x) if is_alloc(x) else ("?", src(x)) for x in xs], any(not is_alloc(x) for x in xs)))
+    # buffers added afterwards to a collection the constructor keeps (`self.X.append(np.empty(...))`, `self.X += [...]`): siblings of the
+    # buffers the collection was created with
+    for k_, (a, sigs_, unk) in enumerate(list(groups)):
+        t_ = src(a.targets[0])
+        for n in ast.walk(init):
+            more = None
+            if isinstance(n, ast.Call) and isinstance(n.func, ast.Attribute) and src(n.func.value) == t_ and n.func.attr in ("append", "extend", "insert") \
+                    and n.args and not n.keywords:
+                x = n.args[-1]
+                more = [x] if n.func.attr in ("append", "insert") else (list(x.elts) if isinstance(x, (ast.List, ast.Tuple)) else [x])
+                if n.func.attr == "extend" and not isinstance(x, (ast.List, ast.Tuple)):
+                    unk = True
+            elif isinstance(n, ast.AugAssign) and src(n.target) == t_:
+                more = list(n.value.elts) if isinstance(n.op, ast.Add) and isinstance(n.value, (ast.List, ast.Tuple)) else [n.value]
+                if not (isinstance(n.op, ast.Add) and isinstance(n.value, (ast.List, ast.Tuple))):
+                    unk = True
+            if more is None:
+                continue
+            for x in more:
+                xx = expand(x, env)
+                if is_alloc(xx):
+                    sigs_.append(sig(xx))
+                else:
+                    unk = True
+        groups[k_] = (a, sigs_, unk)
     if not groups:
         chk.ob(rule, init, "buffers allocated by Grid.__init__", None,
                "no allocation of the grid's buffers (np.empty/np.zeros stored in an attribute) found in Grid.__init__", file=U.GRID, func="Grid.__init__")
@@ -776,13 +871,19 @@ def alloc_agreement(chk, mod):
         ok, bad = None, None
         if not unknown:
             if len(set(sigs)) != 1:
+                # ASSUMPTION: every buffer of the collection was read (display, comprehension, append/extend/+=); size and dtype texts have the
+                # constructor's locals written out
                 bad = (f"buffers differ in size or dtype: {sorted(set(sigs))} - after the roles are exchanged the field would live in an array of another "
                        "type/size (a float buffer drops the imaginary part of a complex field)")
+            elif any(str(x).startswith("like ") for x in sigs[0]):
+                pass          # taken from a prototype array: its own size and type are not followed (undecided)
             elif sigs[0][1] == "<default float>":
                 bad = "the buffers are allocated without the grid's dtype: a complex grid is stored in float64 arrays"
             elif sigs[0][0] in {m + ".bufferSize" for m in mgr}:
                 ok = True
             elif re.search(r"\.size$|max_block_size$|np\.prod\(.*shape\)$", sigs[0][0]):
+                # ASSUMPTION: the size text ends in a LOCAL block size (.size / max_block_size / np.prod(...shape)) and is not wrapped in anything
+                # else
                 bad = (f"the buffers hold `{sigs[0][0]}` elements: the transposes need arrays of the manager's bufferSize (padded exchange blocks x "
                        "communicator size), which is larger than a local block for uneven distributions")
         chk.pat(rule, node, what, ok, "all rotating buffers are allocated with the manager's bufferSize and the grid's dtype", bad,
@@ -799,9 +900,35 @@ def driver_protocol(chk):
     def seq(stmts, states):
         # states: set of (saved: bool, error)
         for st in stmts:
+            # what the statement (re)binds: assumptions made about tests that read these names no longer hold
+            stored = {x.id for x in ast.walk(st) if isinstance(x, ast.Name) and isinstance(x.ctx, ast.Store)} if not isinstance(st, ast.If) else set()
+            if not isinstance(st, (ast.If, ast.For, ast.While)):
+                # a method call may change what the attributes of its receiver (and of its arguments) answer
+                for c_ in ast.walk(st):
+                    if isinstance(c_, ast.Call):
+                        stored |= {x.id for y in ([c_.func.value] if isinstance(c_.func, ast.Attribute) else []) + list(c_.args) + [k.value for k in c_.keywords]
+                                   for x in ast.walk(y) if isinstance(x, ast.Name)}
+            if stored:
+                states = {(sv, frozenset(a_ for a_ in (r or ()) if not (set(a_[2]) & stored)) or None) for sv, r in states}
             if isinstance(st, ast.If):
-                a = seq(st.body, set(states))
-                b = seq(st.orelse, set(states))
+                # two tests with the same text on names that were not rebound in between have the same outcome on a path (a save
+                # and its restore guarded by one flag): the outcome assumed at the first is kept for the second
+                t = src(st.test)
+                names = tuple(sorted({x.id for x in ast.walk(st.test) if isinstance(x, ast.Name)}))
+                pure = not any(isinstance(x, ast.Call) for x in ast.walk(st.test))
+                sa, sb = set(), set()
+                for sv, r in states:
+                    known = dict((a_[0], a_[1]) for a_ in (r or ()))
+                    if pure and t in known:
+                        (sa if known[t] else sb).add((sv, r))
+                    elif pure:
+                        sa.add((sv, frozenset(set(r or ()) | {(t, True, names)})))
+                        sb.add((sv, frozenset(set(r or ()) | {(t, False, names)})))
+                    else:
+                        sa.add((sv, r))
+                        sb.add((sv, r))
+                a = seq(st.body, sa) if sa else set()
+                b = seq(st.orelse, sb) if sb else set()
                 states = a | b
             elif isinstance(st, (ast.While, ast.For)):
                 inner = set(states)
@@ -842,16 +969,20 @@ def driver_protocol(chk):
                func="main", nontrivial=False)
 
 
-def typestate(chk, mod, cls):
+def typestate(chk, mod, cls, only=None):
+    """`only`: report just these rules (another property that needs one invariant of the typestate model, e.g. C02: the Layout object
+    the accessors read is the layout the grid says it is in)"""
     for m in ("__init__", "setLayout", "saveGridValues", "freeGridSave", "restoreGridValues", "getAllData"):
         chk.func(U.GRID, f"Grid.{m}")
     ex = Exec(cls, chk, U.GRID)
     tot_states = tot_trans = 0
     for has_save in (True, False):
-        results, nstates, ntrans = explore(chk, ex, has_save)
+        results, nstates, ntrans = explore(chk, ex, has_save, only=only)
         tot_states += nstates
         tot_trans += ntrans
         for (rule, method), lst in sorted(results.items()):
+            if only is not None and rule not in only:
+                continue
             bad = [x for x in lst if not x[0]]
             node = ex.methods.get(method)
             tag = "with save memory" if has_save else "without save memory"
@@ -893,12 +1024,12 @@ def run(chk):
     driver_protocol(chk)
     # the contract of LayoutManager.transpose that the model relies on is discharged here as well
     from ..resolve import Program
-    from .C01 import flow_check
+    from .C01 import safe_flow_check
     from .C03 import manager_final
     prog = Program(chk.repo, [U.LAYOUT])
     chk.mod(U.LAYOUT)
-    flow_check(chk, prog, U.LAYOUT, "LayoutHandler")
-    flow_check(chk, prog, U.LAYOUT, "LayoutSwapper", extra_final=manager_final)
+    safe_flow_check(chk, prog, U.LAYOUT, "LayoutHandler")
+    safe_flow_check(chk, prog, U.LAYOUT, "LayoutSwapper", extra_final=manager_final)
     from .C02 import derived_state
     derived_state(chk)
     # "layout changes never alter the field": the handler's element placement (same rules as C01)
